@@ -26,7 +26,8 @@ IsRedirect(r) == r.status \in 300..399
 GoodStatus(r) == r.status \in 200..203
 (* every declared content type tolerated, at least one declared *)
 GoodTypes(r, kind) == r.ct # <<>> /\ \A i \in 1..Len(r.ct) : r.ct[i] \in Tolerated(kind)
-(* a tolerated and a foreign type declared together: the statement does not settle this case *)
+(* a tolerated and a foreign type declared together: a foreign content type is declared, so this is an error
+   like any other (every declared type has to be tolerated) *)
 MixedTypes(r, kind) == /\ \E i \in 1..Len(r.ct) : r.ct[i] \in Tolerated(kind)
                        /\ \E i \in 1..Len(r.ct) : r.ct[i] \notin Tolerated(kind)
 Good(r, kind) == GoodStatus(r) /\ GoodTypes(r, kind) /\ r.body = "obj"
@@ -64,10 +65,13 @@ SubseqFrom(s, t, i, j) == IF i > Len(s) THEN TRUE
                           ELSE SubseqFrom(s, t, i, j + 1)
 IsSubseq(s, t) == SubseqFrom(s, t, 1, 1)
 
+(* the fragment of the reported source: the one asked for when the first response is final, none after a
+   redirect (the Locations of these worlds carry no fragment; none is inherited) *)
+SrcFrag(W, u, frag) == IF u \in DOMAIN W /\ IsRedirect(W[u]) THEN "" ELSE frag
+
 (* what C03 demands of one observed fetch: result and requests *)
 FetchOK(W, u, kind, b, res, reqs) ==
-    /\ \/ res = Fresh(W, u, kind, b)
-       \/ Unsettled(W, u, kind, b) /\ (res = Err \/ res = [Fresh(W, u, kind, b) EXCEPT !.ok = TRUE])
+    /\ res = Fresh(W, u, kind, b)
     /\ Len(reqs) <= b + 1
     /\ IsSubseq(reqs, Chain(W, u, b))
 
@@ -81,12 +85,13 @@ Add(c, cap, e) == LET c2 == Append(Without(c, e.key), e) IN
                   IF Len(c2) > cap THEN Tail(c2) ELSE c2
 
 \* ------------------------------------------------------------------ jtp.Get as coded
-Key(variant, kind, u) == IF variant = "pinned" THEN <<u>> ELSE <<kind, u>>
+(* the key is the address as written, fragment included (frag = "" for the hops of a chain) *)
+Key(variant, kind, u, frag) == IF variant = "pinned" THEN <<u, frag>> ELSE <<kind, u, frag>>
 Usable(variant, e, b) == variant = "pinned" \/ e.hops <= b
 
-RECURSIVE GetM(_, _, _, _, _, _, _)
-GetM(variant, W, cap, c, u, kind, b) ==
-    LET key == Key(variant, kind, u) hit == Lookup(c, key) IN
+RECURSIVE GetF(_, _, _, _, _, _, _, _)
+GetF(variant, W, cap, c, u, kind, b, frag) ==
+    LET key == Key(variant, kind, u, frag) hit == Lookup(c, key) IN
     IF hit.found /\ Usable(variant, hit.e, b)
     THEN [res |-> hit.e.res, hops |-> hit.e.hops, cache |-> Touch(c, key), reqs |-> <<>>]
     ELSE IF u \notin DOMAIN W
@@ -96,7 +101,7 @@ GetM(variant, W, cap, c, u, kind, b) ==
     ELSE LET r == W[u] IN
       IF IsRedirect(r) THEN
           IF r.loc = "" \/ b = 0 THEN [res |-> Err, hops |-> 0, cache |-> c, reqs |-> <<u>>]
-          ELSE LET sub == GetM(variant, W, cap, c, r.loc, kind, b - 1)
+          ELSE LET sub == GetF(variant, W, cap, c, r.loc, kind, b - 1, "")
                    e == [key |-> key, res |-> sub.res, hops |-> sub.hops + 1]
                    c2 == IF variant = "pinned" \/ sub.res.ok THEN Add(sub.cache, cap, e) ELSE sub.cache
                IN [res |-> sub.res, hops |-> sub.hops + 1, cache |-> c2, reqs |-> <<u>> \o sub.reqs]
@@ -104,4 +109,5 @@ GetM(variant, W, cap, c, u, kind, b) ==
           THEN [res |-> Ok(r.doc, u), hops |-> 0,
                 cache |-> Add(c, cap, [key |-> key, res |-> Ok(r.doc, u), hops |-> 0]), reqs |-> <<u>>]
       ELSE [res |-> Err, hops |-> 0, cache |-> c, reqs |-> <<u>>]
+GetM(variant, W, cap, c, u, kind, b) == GetF(variant, W, cap, c, u, kind, b, "")
 =============================================================================
